@@ -515,7 +515,14 @@ func (s *Server) Format(ctx context.Context, params *protocol.DocumentFormatting
 		return nil, nil
 	}
 
-	journal, _ := parser.Parse(doc)
+	journal, parseErrs := parser.Parse(doc)
+
+	// lines with a syntax error are not rewritten: the tree does not hold the
+	// text the parser could not understand
+	errorLines := make(map[int]bool, len(parseErrs))
+	for _, e := range parseErrs {
+		errorLines[e.Pos.Line-1] = true
+	}
 
 	var commodityFormats map[string]formatter.NumberFormat
 	if s.workspace != nil {
@@ -527,6 +534,7 @@ func (s *Server) Format(ctx context.Context, params *protocol.DocumentFormatting
 		IndentSize:         settings.Formatting.IndentSize,
 		AlignAmounts:       settings.Formatting.AlignAmounts,
 		MinAlignmentColumn: settings.Formatting.MinAlignmentColumn,
+		ErrorLines:         errorLines,
 	}
 
 	return formatter.FormatDocumentWithOptions(journal, doc, commodityFormats, opts), nil
